@@ -71,17 +71,14 @@ structure LUState (K : Type) where
 /-- one column of the Crout loop -/
 def colStep (mag : K → Float) (n : Nat) (st : LUState K) (j : Nat) : LUState K :=
   let a1 := upper n j j st.a
-  let (a2, best, _) := lower mag st.rowScale n j (n - j) a1
-  let st3 : LUState K :=
-    if best != j then
-      { a := swapRows n best j n a2,
-        rowIndex := (st.rowIndex.set! best st.rowIndex[j]!).set! j st.rowIndex[best]!,
-        rowScale := st.rowScale.set! best st.rowScale[j]!,
-        d := st.d * (-(1 : K)) }
-    else { st with a := a2 }
-  let d := st3.d * get st3.a n j j
-  let a4 := if j + 1 != n then scaleCol n j ((1 : K) / get st3.a n j j) (n - (j + 1)) st3.a else st3.a
-  { st3 with a := a4, d := d }
+  let r := lower mag st.rowScale n j (n - j) a1
+  let best := r.2.1
+  let a3 := if best != j then swapRows n best j n r.1 else r.1
+  let ri3 := if best != j then (st.rowIndex.set! best st.rowIndex[j]!).set! j st.rowIndex[best]! else st.rowIndex
+  let rs3 := if best != j then st.rowScale.set! best st.rowScale[j]! else st.rowScale
+  let d3 := if best != j then st.d * (-(1 : K)) else st.d
+  let a4 := if j + 1 != n then scaleCol n j ((1 : K) / get a3 n j j) (n - (j + 1)) a3 else a3
+  { a := a4, rowIndex := ri3, rowScale := rs3, d := d3 * get a3 n j j }
 
 def luLoop (mag : K → Float) (n : Nat) : Nat → LUState K → LUState K
   | 0, st => st
